@@ -74,3 +74,10 @@ M("c03-mtan-worker-exit-empty", "C03", ("multi_tan.py", """                image
             break"""))
 M("c03-mwcs-no-join-workers", "C03", ("multi_wcs.py", "        done_event.set()\n\n        for w in workers:\n            w.join()", "        done_event.set()\n\n        for w in workers[1:]:\n            w.join()"))
 M("c03-leaf-wrong-tile", "C03", ("pyramid.py", "        callback(*args)", "        callback(args[0], args[1] if args[1] is None or args[0].x % 4 else args[1]._replace(increasing=not args[1].increasing))"))
+
+# ---- C19 (regressions of the worker-failure reporting)
+M("c19-walk-no-check", "C19", ("pyramid.py", "                    check_workers(workers, (ready_queue,))\n                    continue", "                    continue"))
+M("c19-finish-no-final-check", "C19", ("par_util.py", "    for w in workers:\n        w.join()\n\n    check_workers(workers)", "    for w in workers:\n        w.join()"))
+M("c19-check-ignores-exit1", "C19", ("par_util.py", "if w.exitcode is not None and w.exitcode != 0]", "if w.exitcode is not None and w.exitcode < 0]"))
+M("c19-mtan-plain-finish", "C19", ("multi_tan.py", "        finish_workers(queue, done_event, workers)", "        queue.close()\n        queue.join_thread()\n        done_event.set()\n        for w in workers:\n            w.join()"))
+M("c19-worker-swallows", "C19", ("pyramid.py", "        callback(*args)", "        try:\n            callback(*args)\n        except Exception as e:\n            print('error in worker:', e)"))
